@@ -794,6 +794,21 @@ def big_b1_cases(tier, rng, extended=False):
                 p = make_end_prime(rng, part, l)
                 if p:
                     yield Case(f"s2_pm1 {p * big_q(rng, 96)} {b1} {b2} {p} {l}", tag=f"bigb1/{name}")
+    # three and more factors: p1 falls out in stage 1, the ring shrinks (check_gcd_factors + ZmodN::new(nred)), stage 1
+    # continues modulo n/p1 when B1 spans several sieve blocks, p2 falls out in stage 2
+    for (b1, b2) in [(600, 100000), (262144, 300000000)] + ([(65536, 8000000), (1 << 20, 1200000000)] if tier != "quick" else []):
+        lab, d1, d2 = nearest("pm1", b2)
+        eff = pm1_eff(d1, d2)
+        for l in (prev_prime(eff // 2), next_prime(eff)):
+            p2 = make_end_prime(rng, 2 * prev_prime(b1 + 1), l)
+            p1 = None
+            for s_ in range(1, 4000):
+                c = 2 * prev_prime(min(b1, 60000)) * s_ + 1            # p1 - 1 smooth, largest prime in the first sieve block
+                if is_prime(c) and divides_stage1(s_, 500) and pow(2, (c - 1) // prev_prime(min(b1, 60000)), c) != 1:
+                    p1 = c
+                    break
+            if p1 and p2 and p1 != p2:
+                yield Case(f"s2_pm1x {p1 * p2 * big_q(rng, 90) * big_q(rng, 100)} {b1} {b2} {p1} {p2} {l}", tag="shrink")
     for fn, op in (("pm1_only", "s2_pm1_only"), ("pm1_quick", "s2_pm1_quick")):
         for (lo, hi, b1, b2) in arm_table(fn):
             if lo > bits_max or b1 < 10000 or b1 > (1 << 20 if tier == "quick" else 8000000) or \
@@ -984,11 +999,16 @@ def larges_index(l):
 def pm1base_cases(rng, N):
     """PM1Base::factor(n, budget): p - 1 = s*l, s | (powers < 1024 of primes < 500), l among the large primes"""
     made = 0
+    larges_index(503)
+    by_index = {i: p for p, i in _LARGES.items()}
     for i in range(20 * N):
         if made >= N:
             break
         budget = rng.choice([500, 1000, 1001, 1024, 1500, 4000, 20000, 66000])
         l = next_prime(rng.randrange(500, rng.choice([600, 5000, 50000, 800000])))
+        if i % 4 == 0 and budget >= 1024:
+            # the last tested large prime, the first one that is not, and their neighbours
+            l = by_index.get(budget - 1000 + rng.choice([-2, -1, 0, 1]), l)
         smax = (1 << 31) // l
         s = 2
         for _ in range(rng.randrange(0, 4)):
@@ -1177,6 +1197,20 @@ def oracle(case, ans):
             _dyn_bad.add(f"stage2-label:pm1walk:{lab}:{b2}")
             return (f"pm1_impl(b2 = {b2}) reports B2 = {lab} but the prime walk stops at the first prime above {b2}")
         return None
+    if op == "s2_pm1x":
+        n, b1, b2, p1, p2, l = (int(x) for x in a[:6])
+        msg = check_split(n, ans)
+        if msg:
+            return msg
+        if n % (p1 * p2) or not pm1_annotation_ok(Case(f"s2_pm1 {n} {b1} {b2} {p2} {l}")) or not is_prime(p1) \
+                or not divides_stage1(p1 - 1, b1):
+            return "test construction error: the claimed order structure does not check"
+        r = parse_split(ans)
+        if r is None or p1 not in r[0]:
+            return f"p1 = {p1} (p1 - 1 divides the stage-1 exponent) was not separated"
+        if covered("pm1", b1, b2, l) and p2 not in r[0]:
+            return f"p2 = {p2} (covered) was not separated after the ring shrank to n / p1"
+        return None
     if op in ("s2_pm1_only", "s2_pm1_quick"):
         n, p, l = (int(x) for x in a[:3])
         msg = check_split(n, ans)
@@ -1301,7 +1335,10 @@ def oracle(case, ans):
     if op == "s2_rho64":
         return check_split(int(a[0]), ans, pair=True)
     if op == "s2_rho_impl":
-        return check_split(int(a[0]), ans)
+        msg = check_split(int(a[0]), ans)
+        if msg is None and ans != "none" and int(ans.split(" ")[2]) in (1, int(a[0])):
+            return "rho_impl returned a trivial cofactor"
+        return msg
     return "unknown op"
 
 
@@ -1349,6 +1386,8 @@ def klass(case, ans):
     op = case.op
     tag = case.tag or ""
     short = ans.split(" ")[0] if ans else ""
+    if op == "s2_pm1x":
+        return f"s2_pm1x/B1={case.args[1]}/{short}/{ans.count(',') + 1 if short == 'some' else 0}"
     if op in ("s2_pm1_only", "s2_pm1_quick"):
         return f"{op}/bits{(int(case.args[0]).bit_length() + 39) // 40 * 40}/{tag.split('/')[-1]}/{short}"
     if op == "s2_pm1" and tag.startswith("bigb1"):
